@@ -316,17 +316,23 @@ fn run_scenario(sc: &Scenario, do_c01: bool, do_c16: bool) -> CaseResult {
                 }
             }
             if do_c16 && sc.cached {
-                // unequal contents never share, equal contents share one address
-                for a in 0..items.len() {
-                    for b in 0..a {
-                        let same_bytes = items[a].bytes() == items[b].bytes();
-                        let same_addr = created.addrs[a] == created.addrs[b];
-                        if same_bytes != same_addr {
-                            res.violations.push((
-                                if same_bytes { "C16 identical contents do not share one address".into() } else { "C16 different contents share an address".into() },
-                                format!("items #{b} and #{a}: addresses {:?} {:?}", created.addrs[b], created.addrs[a]),
-                            ));
-                        }
+                // unequal contents never share, equal contents share one address (one pass: the
+                // first item seen with given bytes / with a given address is the witness)
+                let mut by_bytes: HashMap<Vec<u8>, usize> = HashMap::new();
+                let mut by_addr: HashMap<(u16, u32), usize> = HashMap::new();
+                let mut reported = 0;
+                for a in 0..items.len().min(created.addrs.len()) {
+                    let bytes = items[a].bytes();
+                    let addr = created.addrs[a];
+                    let wb = *by_bytes.entry(bytes.clone()).or_insert(a);
+                    let wa = *by_addr.entry(addr).or_insert(a);
+                    if reported < 5 && wb != a && created.addrs[wb] != addr {
+                        reported += 1;
+                        res.violations.push(("C16 identical contents do not share one address".into(), format!("items #{wb} and #{a}: addresses {:?} {:?}", created.addrs[wb], addr)));
+                    }
+                    if reported < 5 && wa != a && items[wa].bytes() != bytes {
+                        reported += 1;
+                        res.violations.push(("C16 different contents share an address".into(), format!("items #{wa} and #{a}: addresses {:?} {:?}", created.addrs[wa], addr)));
                     }
                 }
             }
@@ -648,7 +654,7 @@ fn c16(args: &Args) -> ! {
     let mut rep = Report::new(
         "seqmc",
         "C16",
-        "every sequence of length <=3 (quick) / <=4 (thorough) over {A low entropy, B high entropy, A again, empty} x hint {Yes,No,Detect} for every compression {none,lz4,lzma,zstd} x adder {direct,cached} x packaging {bare, one-file}; the produced bytes are decoded by the independent decoder (own CRC, codec crates) and each content's cluster compression, verbatim bytes / decompressed bytes, address sharing and content count are compared with the property; plus, under the deduplicating adder, contents equal except for their last byte (10 bytes .. 4 MiB + 70000, memory and file); plus 400 incompressible bytes followed by a run of 0..48 (thorough 96) bytes with hint Yes (stored size below, equal to and above the plain size); plus contents handed over as whole files and as sub-ranges of files (explicit hints, 3 lengths, alone and second); plus non-initial states (clusters 0..1 blobs short of the 4095-blob limit, raw and/or compressed) followed by every sequence of length <=2 over {A, empty} x {Yes, No}, and by a content handed over as a file (whole / sub-range, alone or after a small one); non-trivial = at least one content with hint Yes or No",
+        "every sequence of length <=3 (quick) / <=4 (thorough) over {A low entropy, B high entropy, A again, empty} x hint {Yes,No,Detect} for every compression {none,lz4,lzma,zstd} x adder {direct,cached} x packaging {bare, one-file}; the produced bytes are decoded by the independent decoder (own CRC, codec crates) and each content's cluster compression, verbatim bytes / decompressed bytes, address sharing and content count are compared with the property; plus, under the deduplicating adder, contents equal except for their last byte (10 bytes .. 4 MiB + 70000, memory and file) and 66000 distinct contents followed by a new content added twice and by repeats of an early and of a late one; plus 400 incompressible bytes followed by a run of 0..48 (thorough 96) bytes with hint Yes (stored size below, equal to and above the plain size); plus contents handed over as whole files and as sub-ranges of files (explicit hints, 3 lengths, alone and second); plus non-initial states (clusters 0..1 blobs short of the 4095-blob limit, raw and/or compressed) followed by every sequence of length <=2 over {A, empty} x {Yes, No}, and by a content handed over as a file (whole / sub-range, alone or after a small one); non-trivial = at least one content with hint Yes or No",
     );
     let mut acc = Acc { states: BTreeSet::new(), transitions: BTreeSet::new(), conformed: 0, multi: 0, mixed: 0, widths: BTreeSet::new() };
     if let Some(p) = &args.replay {
@@ -796,6 +802,17 @@ fn c16(args: &Args) -> ! {
                 }
             }
         }
+    }
+    // the deduplicating adder beyond 65536 distinct contents: a content first seen after that many
+    // others, added twice, is stored once; so are repeats of an early and of a late content
+    for comp in [Comp::None, Comp::Zstd(5)] {
+        let mut items: Vec<Item> = (0..66_000u64).map(|i| Item { len: 8, entropy: Entropy::High, hint: Hint::No, src: Src::Memory, tag: 100_000 + i }).collect();
+        let fresh = Item { len: 9, entropy: Entropy::High, hint: Hint::No, src: Src::Memory, tag: 7 };
+        items.push(fresh.clone());
+        items.push(fresh);
+        items.push(items[5].clone());
+        items.push(items[65_999].clone());
+        scs.push(Scenario { comp, cached: true, packaging: Packaging::Bare, pre: Pre::none(), items });
     }
     if !jbkmc::shard::run_children(args, &mut rep) {
         let scs = jbkmc::shard::select(args, scs);
